@@ -38,6 +38,18 @@ fn test(c: &SimCase, obs: &mut Obs) -> CheckResult {
     Ok(())
 }
 
+/// The schedule invariants on runs with scripted socket faults: a probe that failed to send or
+/// was re-issued still occupies its place in the TTL order and in the in-flight window.
+fn faults_test(c: &SimCase, obs: &mut Obs) -> CheckResult {
+    let log = run_trace(&c.cfg, &c.world);
+    if e2e::prepare(&log, obs)?.is_none() {
+        return Ok(());
+    }
+    e2e::check_schedule(&log, obs)?;
+    obs.class(format!("proto:{:?}", c.cfg.protocol));
+    Ok(())
+}
+
 pub fn check() -> PropertyCheck {
     PropertyCheck {
         id: "C06",
@@ -53,6 +65,14 @@ pub fn check() -> PropertyCheck {
             thorough: 3_000_000,
             strat,
             test,
+            max_shrink: 3000,
+        }),
+        Box::new(Pbt {
+            name: "schedule-faults",
+            quick: 40_000,
+            thorough: 1_500_000,
+            strat: super::c10::fault_strat,
+            test: faults_test,
             max_shrink: 3000,
         })],
     }
